@@ -336,5 +336,13 @@ theorem thickPoints_prefix (l : Line) (w : Nat) (hw : 1 ≤ w) (hw2 : w ≤ 2147
     (len_lt_budget l w) h'
   exact ⟨more, by rw [hm, centre_walk]⟩
 
+/-- Stroke width 0: no pixel (`effective_stroke_color()` is `None`). -/
+theorem thickPoints_width0 (l : Line) : thickPoints l 0 = some [] := by
+  obtain ⟨iter, hnew, _⟩ := new_any l 0
+  have hz : satAsI32 0 = 0 := by decide
+  unfold thickPoints ThickPointsIt.new
+  rw [hz, hnew]
+  simp only [↓reduceIte]
+
 end Thick
 end EG
